@@ -81,18 +81,18 @@ def _check_1d(desc, tier, V, st):
             continue
         c = np.asarray(spl.coeffs, dtype=float)
         want = S.coeffs(u)
-        if np.abs(c - want).max() > tol:
+        if not (np.abs(c - want).max() <= tol):
             V('coefficients:' + cls, '%s data=%s: coefficients off by %.3g (tol %.3g)' % (key, name, np.abs(c - want).max(), tol))
         if S.per and not np.array_equal(c[n:n + d], c[:d]):
             V('periodic-wrap:' + cls, '%s data=%s: c[n:n+p] != c[:p]' % (key, name))
         got = np.array([spl.eval(float(x)) for x in pts])
-        if np.abs(got - u).max() > tol:
+        if not (np.abs(got - u).max() <= tol):
             V('data-not-reproduced:' + cls, '%s data=%s: max |S(x_i)-u_i| = %.3g (tol %.3g)' % (key, name, np.abs(got - u).max(), tol))
         if name.startswith('x^'):
             k = int(name[2:])
             gx = np.asarray(spl.eval(X), dtype=float)
             t2 = 64 * EPS * cond * (d + 1) * max(1.0, float(np.abs(X).max()) ** k)
-            if np.abs(gx - X ** k).max() > t2:
+            if not (np.abs(gx - X ** k).max() <= t2):
                 V('polynomial-not-reproduced:' + cls, '%s: x^%d reproduced with error %.3g (tol %.3g)' % (key, k, np.abs(gx - X ** k).max(), t2))
     # complex data on clamped spaces
     if not S.per:
@@ -107,7 +107,7 @@ def _check_1d(desc, tier, V, st):
                 itc.compute_interpolant(z, splc)
                 want = S.coeffs(u) + 1j * S.coeffs(v)
                 tol = 64 * EPS * cond * (d + 1) * max(1.0, float(np.abs(z).max()))
-                if np.abs(np.asarray(splc.coeffs) - want).max() > tol:
+                if not (np.abs(np.asarray(splc.coeffs) - want).max() <= tol):
                     V('complex-coefficients:' + cls, '%s data=%s: complex coefficients off by %.3g' % (key, name, np.abs(np.asarray(splc.coeffs) - want).max()))
         except Exception as e:  # noqa
             V('complex-exception:%s:%s' % (cls, type(e).__name__), '%s: complex interpolation raised %s: %s' % (key, type(e).__name__, e))
@@ -155,14 +155,14 @@ def _check_2d(da, db, tier, V, st):
             return
         C = np.asarray(spl.coeffs)
         want = refspline.coeffs2d(S1, S2, U)
-        if np.abs(C - want).max() > tol:
+        if not (np.abs(C - want).max() <= tol):
             V('2d-coefficients:' + cls, '%s data=%s: coefficients off by %.3g (tol %.3g)' % (key, name, np.abs(C - want).max(), tol))
         if S1.per and not np.array_equal(C[n1:n1 + p1, :], C[:p1, :]):
             V('2d-periodic-wrap-axis1:' + cls, '%s data=%s: wrapped coefficients along axis 1 inconsistent' % (key, name))
         if S2.per and not np.array_equal(C[:, n2:n2 + p2], C[:, :p2]):
             V('2d-periodic-wrap-axis2:' + cls, '%s data=%s: wrapped coefficients along axis 2 inconsistent' % (key, name))
         got = spl.eval(x1, x2)
-        if np.abs(got - U).max() > tol:
+        if not (np.abs(got - U).max() <= tol):
             V('2d-data-not-reproduced:' + cls, '%s data=%s: max |S(x_i,y_j)-u_ij| = %.3g (tol %.3g)' % (key, name, np.abs(got - U).max(), tol))
 
 
